@@ -1,7 +1,7 @@
 import Pycoin.Driver.Core
 import Pycoin.Model.HashPy
 import Pycoin.Model.Bloom
-import Pycoin.Model.History
+import Pycoin.Model.HashHistory
 import Pycoin.Spec.Murmur3
 /-! C19 ops: the Python-style models of contrib/ripemd160.py, bloomfilter.py, encoding/hash.py. -/
 namespace Pycoin.Driver.C19
@@ -68,12 +68,12 @@ def bloomOp (size nh tweak : Int) (items : List Item) : Except PyErr String := d
     | none => pure false
   pure (hx f.filterBytes ++ " " ++ (if ms.isEmpty then "~" else String.ofList (ms.map fun b => if b then '1' else '0')))
 
-def parseKind? : String → Option History.Kind
+def parseKind? : String → Option HashHistory.Kind
   | "y" => some .bytes | "a" => some .bytearray | "m" => some .memoryview | _ => none
 
 /-- history steps, `:`-separated fields: `ny:0:<hex>` `na:…` `nm:…` new buffer; `s:0:<hex>` overwrite in place;
 `r:0` `h:0` `d:0` `c:0` `m:0:<seed>` calls; `bn:<size>:<nh>:<tweak>` `ba:0` `bf` `bc:0` Bloom filter -/
-def parseStep? (s : String) : Option History.Step :=
+def parseStep? (s : String) : Option HashHistory.Step :=
   match s.splitOn ":" with
   | [k, i, d] =>
     if k = "s" then do some (.set (← parseNat? i) (← parseHex? d))
@@ -91,7 +91,7 @@ def parseStep? (s : String) : Option History.Step :=
   | ["bc", i] => do some (.bcontains (← parseNat? i))
   | _ => none
 
-def showAns : History.Ans → String
+def showAns : HashHistory.Ans → String
   | .ok .unit => "."
   | .ok (.bytes b) => hx b
   | .ok (.int n) => toString n
@@ -135,7 +135,7 @@ def handle : Handler := fun op args =>
   | "c19_history", [cfg, script] => do
     let impl ← parseImpl? cfg
     let steps ← parseList? parseStep? script
-    some ("ok " ++ ";".intercalate ((History.exec (History.implFns impl) History.empty steps).map showAns))
+    some ("ok " ++ ";".intercalate ((HashHistory.exec (HashHistory.implFns impl) HashHistory.empty steps).map showAns))
   | _, _ => none
 
 end Pycoin.Driver.C19
